@@ -463,6 +463,46 @@ fn one_case(_ctx: &Ctx, case: u64, r: &mut Rng, rep: &mut Report) {
         }
         Ok(Ok(m)) => m,
     };
+    // delete-unchanged (an option that removes snapshots whose tree equals the next older one's) never overrides a
+    // snapshot's own mark: with it switched on and runs of equal trees, delete-never snapshots stay, delete-after
+    // snapshots stay exactly until their time has passed
+    if with_marks {
+        let lib_snaps: Vec<SnapshotFile> = snaps
+            .iter()
+            .enumerate()
+            .map(|(i, s)| {
+                let mut sf = to_lib_snap(s, offset);
+                // runs of three equal trees
+                sf.tree = sha_id(format!("tree-{}", i / 3).as_bytes()).into();
+                sf
+            })
+            .collect();
+        let mut k = to_lib_opts(&o);
+        k.delete_unchanged = true;
+        let nowz = zoned(now, offset);
+        rep.count("delete_unchanged_probes", 1);
+        match catch(move || k.apply(lib_snaps, &nowz).map_err(|e| crate::repo::errstr(&e))) {
+            Err(p) => rep.violation(case, format!("panic:{}", panic_sig(&p)), format!("KeepOptions::apply (delete_unchanged) panicked: {p}"), detail()),
+            Ok(Err(_)) => {}
+            Ok(Ok(v)) => {
+                for f in v {
+                    let hex = f.snapshot.id.to_hex().to_string();
+                    let Some(sn) = snaps.iter().find(|s| s.id_hex == hex) else { continue };
+                    let expect = match sn.mark {
+                        Mark::Never => Some(true),
+                        Mark::After(t) => Some(t >= now),
+                        Mark::None => None,
+                    };
+                    if let Some(e) = expect {
+                        if f.keep != e {
+                            rep.violation(case, "mark-overridden-by-delete-unchanged", format!("snapshot at {} carries {:?} and now={now}: expected keep={e}, got keep={} with reasons {:?} (delete_unchanged on)", sn.t, sn.mark, f.keep, f.reasons), detail());
+                            break;
+                        }
+                    }
+                }
+            }
+        }
+    }
     let ref_vis = reference(&snaps, &o, now, offset, true);
     let ref_invis = reference(&snaps, &o, now, offset, false);
     let libkeep: Vec<bool> = snaps.iter().map(|s| lib.get(&s.id_hex).is_some_and(|x| x.0)).collect();
@@ -611,7 +651,7 @@ pub fn run(ctx: &Ctx) -> (Report, Meta) {
         rule: "case = multiset of 1-60 snapshot timestamps clustered within +-3 units (+ second/minute/hour jitter) of a minute/hour/day/ISO-week/month/quarter/half-year/year boundary or around new year (ISO week-year edges, 52/53-week years 2014-2027) in one fixed UTC offset x KeepOptions (each count in {unset,0,1,2,3,7,-1}, keep-within spans from 1 s to 400 d, tag sets, id prefixes, delete-never/after marks); oracle: keep flag of every snapshot == reference implementation of the stated rules (own civil/ISO-week arithmetic, set formulation), own marks honoured, raising a count never un-keeps, input order irrelevant. non-trivial = >= 2 snapshots and >= 1 period rule active; distinct = (cluster unit, active period rules, decoration)".to_string(),
         exhaustive: false,
         assumptions: vec![
-            "exact comparison in groups sharing one fixed UTC offset (no DST zones); delete_unchanged stays off (not a keep rule)".to_string(),
+            "exact comparison in groups sharing one fixed UTC offset (no DST zones); delete_unchanged stays off in the exact comparison (not a keep rule); switched on only for the probe that a snapshot's own mark still decides".to_string(),
             "with delete marks present, the library must agree with one of two readings of the statement (marked snapshots do / do not take part in 'newest of its period')".to_string(),
             "keep-within spans use fixed-length units (seconds/minutes/hours) so that 'counted back from the newest' is unambiguous".to_string(),
         ],
